@@ -62,12 +62,29 @@ FLOATS = {'float': 4, 'double': 8, 'long double': 16}
 
 class CType:
     """kind in int/ptr/float/record/array/void/func/complex"""
-    __slots__ = ('kind', 'size', 'signed', 'target', 'count', 'name', 'align')
+    __slots__ = ('kind', '_size', 'signed', 'target', 'count', 'name', '_align', '_tu')
 
-    def __init__(self, kind, size=0, signed=False, target=None, count=None, name=None, align=None):
-        self.kind, self.size, self.signed = kind, size, signed
+    def __init__(self, kind, size=0, signed=False, target=None, count=None, name=None, align=None, tu=None):
+        self.kind, self._size, self.signed = kind, size, signed
         self.target, self.count, self.name = target, count, name
-        self.align = align if align is not None else (size if kind in ('int', 'ptr', 'float') else 1)
+        self._align = align if align is not None else (size if kind in ('int', 'ptr', 'float') else 1)
+        self._tu = tu          # records: size/alignment resolved lazily (pointers to incomplete/recursive records)
+
+    @property
+    def size(self):
+        if self._tu is not None and self.kind == 'record':
+            return self._tu.layout(self.name)[0]
+        if self.kind == 'array' and self.target is not None and self.count is not None:
+            return self.target.size * self.count
+        return self._size
+
+    @property
+    def align(self):
+        if self._tu is not None and self.kind == 'record':
+            return self._tu.layout(self.name)[1]
+        if self.kind == 'array' and self.target is not None:
+            return self.target.align
+        return self._align
 
     @property
     def bits(self):
@@ -101,6 +118,7 @@ class TU:
         self.enum_types = {}     # enum tag -> CType
         self.globals = {}        # name -> VarDecl
         self._layouts = {}
+        self._in_progress = set()
         self._types = {}
         self._files = {}
         self._index(root)
@@ -212,7 +230,8 @@ class TU:
             if alt is None or alt == q:
                 raise
             r = self._parse_type(alt)
-        self._types[key] = r
+        if not self._in_progress:        # sizes seen while a record is being laid out may be placeholders
+            self._types[key] = r
         return r
 
     _quals = re.compile(r'\b(const|volatile|restrict|__restrict)\b')
@@ -260,8 +279,7 @@ class TU:
             if '(unnamed' in q or '(anonymous' in q:
                 raise FrontEndError("anonymous record by name %r" % q)
             if q2 in self.records:
-                size, align, _ = self.layout(q2)
-                return CType('record', size, False, name=q2, align=align)
+                return CType('record', 0, False, name=q2, tu=self)
             bare = q2.split(' ', 1)[1]
             if bare in self.typedefs:
                 return self._parse_type(bare)
@@ -287,8 +305,7 @@ class TU:
                 else:
                     keyname = 'typedef ' + q
                     self.records[keyname] = rec
-                size, align, _ = self.layout(keyname)
-                return CType('record', size, False, name=keyname, align=align)
+                return CType('record', 0, False, name=keyname, tu=self)
             inner = t.get('desugaredQualType') or t['qualType']
             if self._quals.sub('', inner).strip() == q:
                 inner = t['qualType']
@@ -326,7 +343,9 @@ class TU:
         align = 1
         size = 0
         fields = {}
-        self._layouts[key] = (0, 1, fields)     # recursion guard (pointers to self)
+        if key in self._in_progress:
+            raise FrontEndError("record %s contains itself by value" % key)
+        self._in_progress.add(key)
         pending_anon = None
         for c in rec.get('inner', []):
             if c.get('kind') == 'RecordDecl':
@@ -340,8 +359,7 @@ class TU:
             if ('(unnamed' in q or '(anonymous' in q) and pending_anon is not None:
                 akey = 'anon ' + pending_anon['id']
                 self.records[akey] = pending_anon
-                s2, a2, _ = self.layout(akey)
-                ft = CType('record', s2, False, name=akey, align=a2)
+                ft = CType('record', 0, False, name=akey, tu=self)
                 m = re.search(r'((?:\[\d*\])+)$', q)
                 if m:
                     for dmn in reversed(re.findall(r'\[(\d*)\]', m.group(1))):
@@ -367,6 +385,7 @@ class TU:
                     fields[fn] = (o + fo, fft, fb)
         size = (size + align - 1) // align * align
         self._layouts[key] = (size, align, fields)
+        self._in_progress.discard(key)
         return self._layouts[key]
 
     def record_of_expr_type(self, qual, desugared=None):
